@@ -70,7 +70,11 @@ def run(rep, tier):
                 rep.add(Finding('C18-no-shared-store', f'sourcer/translator.py:{name}', f'ctx={ctx}',
                                 f'{what}: the {label} of the driver is not a local object', f'sourcer/translator.py:{name}'))
         rep.oblige(True, 2)
-    routes.run(rep, 'C18', ['WIRE-parent-readonly'])
+    rep.rule('PY-in-place', 'inline Python of the grammar (arguments, predicates, applied functions, let values, '
+                            'bounds) is evaluated inside the rule function at every visit, never hoisted to '
+                            'module level where its value would be shared by all parse calls')
+    found, stats, nmods = routes.run(rep, 'C18', ['WIRE-parent-readonly', 'PY-in-place'])
+    rep.floor('route facts: inline_python_sites', stats.get('inline_python_sites', 0), 20)
     # nested parses started from inline Python: their (already finalised) objects may be embedded in the
     # outer result
     from .. import finalize
